@@ -722,7 +722,7 @@ func (w *world) tryBuryRace() (pairRec, bool) {
 		cp.Release()
 		p.RA = <-doneA
 	case p.RA = <-doneA:
-		// since fix b5aa87e: buryStore saw the peer under the lock and refused (checkStores only logs that); the outcome is
+		// since fix 2f015b8: buryStore saw the peer under the lock and refused (checkStores only logs that); the outcome is
 		// the sequential order region ; check, which the monitor accepts
 		w.buryRace = "buryStore-refused-under-the-lock"
 	}
